@@ -27,6 +27,10 @@ func checkC01(c *Ctx) {
 	ruleMailboxTransform(c, "C01.f")
 	c.rule("C01.g", "numbers: the parser's domain (strconv function, bitSize) is exactly the range of the type the number is delivered in", 5)
 	ruleNoNarrowing(c, "C01.g")
+	c.rule("C01.h", "mailbox-name transformer chunking: ErrShortSrc on a split unit, space check before every write, nSrc after the check", 8)
+	ruleUTF7Chunking(c, "C01.h", "C01.h", "C01.h")
+	c.rule("C01.i", "quoted-string scanner: the closing-quote and escape tests see unescaped bytes only", 2)
+	ruleQuotedScanner(c, "C01.i")
 	if list := c.P.Func("internal/imapwire", "Decoder", "List"); list != nil {
 		checkListGuard(c, "C01.e", list)
 	} else {
@@ -236,6 +240,23 @@ func ruleThresholdAgreement(c *Ctx, rule string) {
 					return nil, true
 				}
 				return nil, false
+			}
+			// a string of exactly 4096 bytes is the longest the writer may still
+			// quote; when its content forces a literal, it is buffered by the
+			// reader and must pass checkBufferedLiteral as well
+			if size == 4096 {
+				in3 := &Interp{P: p}
+				in3.Call = in2.Call
+				v3, err3 := in3.Eval(cbl.Object().(*types.Func), ptrV{&objV{path: "c", fields: map[string]Val{}}}, []Val{mkInt(int64(size)), mkBool(!syncUsed)})
+				k3 := fmt.Sprintf("buffered string literal[server LITERAL+=%v,size=%d]", serverLP, size)
+				c.evals++
+				if err3 != nil {
+					c.undecided(rule, k3, cbl.Pos(), "reader side (buffered): "+err3.Error())
+				} else {
+					isNil3, _ := valIsNilErr(v3)
+					c.check(isNil3, rule, k3, cbl.Pos(), "a 4096-byte string sent as a literal is accepted by the buffered-literal check", "the buffered-literal check refuses a 4096-byte literal although the writer treats 4096 bytes as short: a legal string argument fails in transit")
+				}
+				contReq = false
 			}
 			v, err := in2.Eval(al.Object().(*types.Func), ptrV{&objV{path: "c", fields: map[string]Val{}}}, []Val{mkInt(int64(size)), mkBool(!syncUsed)})
 			if err != nil {
